@@ -14,10 +14,16 @@ def _add(prop, *names):
 
 # the invariant every reachable-state theorem rests on (holds after every history of API calls)
 _REACH = ["Pfdl.Sched.runOps_inv"]
+_REACHT = ["Pfdl.Sched.runOps_tinv", "Pfdl.Props.C14.reachable_inv"]
 
 _add("C01", *_REACH, "Pfdl.Props.C01.no_stall", "Pfdl.Props.C01.awaited_eq_outstanding",
      "Pfdl.Props.C01.nothing_awaited_when_finished", "Pfdl.Props.C01.running_iff", "Pfdl.Props.C01.running_iff_init",
-     "Pfdl.Props.C01.running_iff_full_false", "Pfdl.Props.C01.finished_absorbing")
+     "Pfdl.Props.C01.running_iff_full_false", "Pfdl.Props.C01.finished_absorbing",
+     "Pfdl.Props.C01.production_task_finished_once", *_REACHT)
+_add("C07", *_REACHT, "Pfdl.Props.C07.services_balanced", "Pfdl.Props.C07.tasks_balanced", "Pfdl.Props.C07.all_finished_at_end",
+     "Pfdl.Props.C07.production_task_notes", "Pfdl.Props.C07.service_finished_timely")
+_add("C14", *_REACHT, "Pfdl.Props.C14.ids_consecutive", "Pfdl.Props.C14.unique_services", "Pfdl.Props.C14.unique_tasks",
+     "Pfdl.Props.C14.finished_ids_were_started", "Pfdl.Props.C14.accepted_id_is_finished_id")
 _add("C08", *_REACH, "Pfdl.Props.C08.accept_iff", "Pfdl.Props.C08.accept_iff_partial", "Pfdl.Props.C08.accept_iff_full_false",
      "Pfdl.Props.C08.reject_noop", "Pfdl.Props.C08.as_if_never_sent", "Pfdl.Props.C08.start_idempotent",
      "Pfdl.Props.C08.invalid_inert")
